@@ -201,6 +201,22 @@ def round_ops(rng, family, name, tier, good):
     return ops
 
 
+# names that LOOK like address literals but are not (they must be looked up like any other name,
+# or be rejected as names - never be answered with a made-up address), and odd spellings that are
+NEAR_LITERALS = ["10.20.30.400", "999.1.1.1", "1.2.3.256", "300.300.300.300", "1.2.3.", "1..2.3", ".1.2.3", "1.2.3", "1.2",
+                 "1.2.3.4.5", "1.2.3.4.", "256.0.0.1", "1.2.3.1000000000000", "0.0.0.256", "99999999999.1.1.1", "1.2.3.04x",
+                 "0x7f.0.0.1", "127.1", "1.2.3.4a", "12345", "1.2.3.-4",
+                 "::g", "1::2::3", "fe80::1%zz", "1:2:3:4:5:6:7:8:9", "2001:db8::12345", ":::1", "1:2:3:4:5:6:7", "[::1]"]
+
+
+def near_literal(rng):
+    k = rng.choice([3, 3, 3, 2, 4])
+    parts = []
+    for _ in range(k + 1):
+        parts.append(rng.choice(["0", "1", "9", "10", "099", "255", "256", "260", "999", "1000", "", "00000000000000000001", "4294967296"]))
+    return ".".join(parts)
+
+
 QNAMES = ["www.example.com", "host", "a.b", "deep.sub.example.org", "WWW.Example.COM", "x", "www.example.com.", "gamma", "alpha.test", "mixed.example"]
 
 
@@ -224,8 +240,13 @@ def gen_case(rng, tier, cat):
         family = rng.choice([0, 0, 4, 6])
         if kind in ("gai", "ghbn"):
             r = rng.random()
-            if r < 0.12:
-                name = rng.choice(["192.0.2.1", "0.0.0.0", "255.255.255.255", "10.1.2.3", "::1", "2001:db8::1", "fe80::1", "2001:DB8::A"])
+            if r < 0.10:
+                name = rng.choice(NEAR_LITERALS)
+            elif r < 0.12:
+                name = near_literal(rng)
+            elif r < 0.20:
+                name = rng.choice(["192.0.2.1", "0.0.0.0", "255.255.255.255", "10.1.2.3", "::1", "2001:db8::1", "fe80::1", "2001:DB8::A",
+                                   "010.001.002.003", "0000000010.1.2.3", "255.255.255.0255"])
             elif r < 0.24:
                 name = rng.choice(["localhost", "LocalHost", "foo.localhost", "a.b.LOCALHOST", "localhost.", "notlocalhost"])
             elif r < 0.45 and hn:
@@ -297,7 +318,11 @@ def fixed_cases(cat):
     """regression histories that need a hosts file (the corpus cannot carry absolute paths)"""
     base = "servers=1 qcachettl=0 flags=noedns tries=1 timeout=1000 "
     h0, h1, h2, h3, h4 = cat[0], cat[1], cat[2], cat[3], cat[4]
-    return [
+    near = [base + "lookups=b|gai 1 %s %d 0x80 80;%s;rspall rcode=NXDOMAIN;run;ghbn 2 %s %d;%s;rspall rcode=NXDOMAIN;run" %
+            (n, f, ("rsp xl-1 an=A:203.0.113.9:60;rsp xl an=AAAA:[2001:db8::99]:60;run" if f == 0 else ("rsp xl an=A:203.0.113.9:60;run" if f == 4 else "rsp xl an=AAAA:[2001:db8::99]:60;run")),
+             n, f, ("rsp xl-1 an=A:203.0.113.9:60;rsp xl an=AAAA:[2001:db8::99]:60;run" if f == 0 else ("rsp xl an=A:203.0.113.9:60;run" if f == 4 else "rsp xl an=AAAA:[2001:db8::99]:60;run")))
+            for n in ("10.20.30.400", "999.1.1.1", "1.2.3.256", "1.2.3.") for f in (0, 4, 6)]
+    return near + [
         # one name with IPv4 and IPv6 lines: AF_UNSPEC takes all, single families filter, case-insensitive
         base + "lookups=fb hosts=%s|gai 1 mixed.example 0 0x80 443;gai 2 MIXED.example 4 0x81 80;gai 3 mixed.example 6 0x80 -;ghbn 4 mixed.example 0;ghbn 5 Mixed.Example 6;ghba 6 192.0.2.7;ghba 7 2001:db8::7;ghba 8 10.1.2.3;gni 9 10.1.2.3 0 0" % h0,
         # merged entries: same address twice, a second address joined through a shared name
